@@ -1,7 +1,7 @@
 """C31 — seeded and parallel execution is reproducible and order-preserving."""
 import time
 
-import numpy as np
+import numpy as np  # noqa: F401
 from hypothesis import strategies as st
 
 from pv import gen, specs
@@ -22,23 +22,29 @@ RULE = (
 )
 ASSUMPTIONS = ["The harness controls completion order via delays inside the task function, not the OS scheduler.",
                "Process pools use the platform default start method (fork); the delay table is inherited by forked workers."]
-BUDGET = {"quick": {"examples": 36}, "thorough": {"examples": 1500, "shards": 12}}
+BUDGET = {"quick": {"examples": 30, "min_nontrivial": 2}, "thorough": {"examples": 600, "shards": 1}}
 SHRINK_LISTS = ("circuits",)
 
-DELAYS = {}          # marker angle (rounded) -> seconds; read inside workers
-_ORIG = None
+ENV = "PV_C31_DELAYS"   # json {marker angle: seconds}; environment is inherited by forked AND spawned workers
 
 
 def delayed_simulate(circuit, kwargs):
-    """Module-level (picklable) replacement for default_qubit._simulate_wrapper that sleeps first."""
+    """Module-level (picklable, importable in spawned workers) replacement for
+    default_qubit._simulate_wrapper that sleeps for the delay assigned to this circuit first."""
+    import json
+    import os
+
+    from pennylane.devices.qubit import simulate
+
     try:
-        key = round(float(np.asarray(circuit.operations[0].data[0])), 6)
-        d = DELAYS.get(key, 0.0)
+        table = json.loads(os.environ.get(ENV, "{}"))
+        key = repr(round(float(np.asarray(circuit.operations[0].data[0])), 6))
+        d = float(table.get(key, 0.0))
     except Exception:  # noqa: BLE001
         d = 0.0
     if d:
         time.sleep(d)
-    return _ORIG(circuit, kwargs)
+    return simulate(circuit, **kwargs)
 
 
 @st.composite
@@ -61,7 +67,7 @@ def _case(draw):
             st.just({"mp": "probs", "w": wires})), min_size=1, max_size=2))
     d = st.lists(st.sampled_from([0.0, 0.0, 0.005, 0.012, 0.025]), min_size=k, max_size=k)
     return {"circuits": circuits, "meas": meas, "shots": shots, "seed": draw(st.integers(0, 2**20)),
-            "backend": draw(st.sampled_from(["mp_pool", "cf_procpool", "cf_threadpool", "serial"])),
+            "backend": draw(st.sampled_from(["cf_threadpool"] * 6 + ["serial"] * 2 + ["mp_pool", "cf_procpool"])),
             "workers": draw(st.sampled_from([1, 2, 3, 5])), "delays_a": draw(d), "delays_b": draw(d)}
 
 
@@ -69,16 +75,16 @@ def strategy(tier):
     return _case()
 
 
-def _run(tapes, spec, delays, parallel):
+def _run(tapes, spec, delays, parallel, n_exec=2):
+    import json
+    import os
+
     import pennylane as qp
     import pennylane.devices.default_qubit as dq
     from pennylane.concurrency.executors.backends import get_executor
     from pennylane.devices import ExecutionConfig
 
-    global _ORIG
-    DELAYS.clear()
-    for i, dl in enumerate(delays):
-        DELAYS[round(0.05 * (i + 1), 6)] = dl
+    os.environ[ENV] = json.dumps({repr(round(0.05 * (i + 1), 6)): dl for i, dl in enumerate(delays)})
     if parallel:
         workers = 1 if spec["backend"] == "serial" else spec["workers"]
         dev = qp.device("default.qubit", seed=spec["seed"], max_workers=workers)
@@ -86,15 +92,14 @@ def _run(tapes, spec, delays, parallel):
     else:
         dev = qp.device("default.qubit", seed=spec["seed"])
         cfg = ExecutionConfig()
-    _ORIG = dq._simulate_wrapper if dq._simulate_wrapper is not delayed_simulate else _ORIG
+    orig = dq._simulate_wrapper
     dq._simulate_wrapper = delayed_simulate
     try:
-        r1 = dev.execute(tuple(tapes), cfg)
-        r2 = dev.execute(tuple(tapes), cfg)
+        out = [to_np(dev.execute(tuple(tapes), cfg)) for _ in range(n_exec)]
     finally:
-        dq._simulate_wrapper = _ORIG
-        DELAYS.clear()
-    return to_np(r1), to_np(r2)
+        dq._simulate_wrapper = orig
+        os.environ.pop(ENV, None)
+    return out
 
 
 def _eq(a, b, exact):
@@ -112,23 +117,25 @@ def check(spec):
     tapes = [specs.build_tape({"ops": ops, "meas": spec["meas"], "shots": spec["shots"]}) for ops in spec["circuits"]]
     feats = {"backend": spec["backend"], "workers": spec["workers"], "shots": spec["shots"] is not None}
     sig = spec["backend"]
-    ser1, ser2 = _run(tapes, spec, [0.0] * len(tapes), parallel=False)
-    serb1, serb2 = _run(tapes, spec, [0.0] * len(tapes), parallel=False)
-    if not (_eq(ser1, serb1, True) and _eq(ser2, serb2, True)):
+    proc = spec["backend"] in ("mp_pool", "cf_procpool")   # workers are spawned and import pennylane: expensive
+    n_exec = 1 if proc else 2
+    ser = _run(tapes, spec, [0.0] * len(tapes), parallel=False, n_exec=n_exec)
+    ser_b = _run(tapes, spec, [0.0] * len(tapes), parallel=False, n_exec=n_exec)
+    if not all(_eq(x, y, True) for x, y in zip(ser, ser_b)):
         raise Viol("seed-reproducibility-serial", f"two fresh seeded devices differ; shots={spec['shots']} meas={spec['meas']}", sig="serial", features=feats)
-    pa1, pa2 = _run(tapes, spec, spec["delays_a"], parallel=True)
-    pb1, pb2 = _run(tapes, spec, spec["delays_b"], parallel=True)
+    pa = _run(tapes, spec, spec["delays_a"], parallel=True, n_exec=n_exec)
     if spec["shots"] is None:
-        for lab, r in (("first", pa1), ("second", pa2), ("first-b", pb1)):
-            if not _eq(r, ser1, False):
-                bad = [i for i, (x, y) in enumerate(zip(r, ser1)) if not _eq(x, y, False)]
-                raise Viol("parallel-differs-from-serial", f"{lab} execution: positions {bad} differ; backend={spec['backend']} workers={spec['workers']} delays={spec['delays_a']}",
-                           sig=sig, features=feats)
+        for k, r in enumerate(pa):
+            if not _eq(r, ser[k], False):
+                bad = [i for i, (x, y) in enumerate(zip(r, ser[k])) if not _eq(x, y, False)]
+                raise Viol("parallel-differs-from-serial", f"execution {k}: positions {bad} differ; backend={spec['backend']} workers={spec['workers']} "
+                           f"delays={spec['delays_a']}", sig=sig, features=feats)
     else:
-        if not (_eq(pa1, pb1, True) and _eq(pa2, pb2, True)):
+        pb = _run(tapes, spec, spec["delays_b"], parallel=True, n_exec=n_exec)
+        if not all(_eq(x, y, True) for x, y in zip(pa, pb)):
             raise Viol("schedule-dependent-shots", f"same seed/backend/workers, different delay vectors give different shot results; backend={spec['backend']} "
                        f"workers={spec['workers']} a={spec['delays_a']} b={spec['delays_b']}", sig=sig, features=feats)
-        for res in pa1:
+        for res in pa[0]:
             _valid(res, spec)
     order_a = sorted(range(len(tapes)), key=lambda i: (spec["delays_a"][i], i))
     reordered = order_a != list(range(len(tapes)))
